@@ -14,11 +14,11 @@ def gen(tier, rnd):
     cases = []
     cid = [0]
 
-    def case(cidn, ckey, table, hint='srv', acc=1, nq=2, inj=0, rel=0, idcb=1, drop=(), sni='', warm='', snik=()):
+    def case(cidn, ckey, table, hint='srv', acc=1, nq=2, inj=0, rel=0, idcb=1, drop=(), sni='', warm='', snik=(), dup=(), mute=0, sclose=0):
         cid[0] += 1
-        cases.append((cid[0], ['X id=%d cid=%s ckey=%s sk=%s hint=%s acc=%d nq=%d inj=%d rel=%d idcb=%d drop=%s sni=%s warm=%s snik=%s'
+        cases.append((cid[0], ['X id=%d cid=%s ckey=%s sk=%s hint=%s acc=%d nq=%d inj=%d rel=%d idcb=%d drop=%s sni=%s warm=%s snik=%s dup=%s mute=%d sclose=%d'
                                % (cid[0], cidn, ckey, ','.join('%s:%s' % kv for kv in table), hint, acc, nq, inj, rel, idcb, ','.join(map(str, drop)),
-                                  sni, warm, ','.join('%s:%s' % kv for kv in snik)), 'E']))
+                                  sni, warm, ','.join('%s:%s' % kv for kv in snik), ','.join(map(str, dup)), mute, sclose), 'E']))
     K = 'secretkey0123456'
     keys = [K, K[:-1], K + 'x', K[:8], 'S' + K[1:], K.upper(), 'a', K * 2]
     # equal / different length / prefix / extension / one character off
@@ -59,6 +59,20 @@ def gen(tier, rnd):
         case('alice', K, [('alice', K)], nq=2, inj=inj)
         case('alice', 'wrongkey', [('alice', K)], nq=2, inj=inj)
         case('alice', K, [('alice', K)], nq=0, inj=inj)
+    # duplication during and after the handshake: nothing is lost, so everything queued is still delivered exactly once, in order; a duplicate record is
+    # discarded by the DTLS layer and must not cost the session
+    for i in range(16):
+        case('alice', K, [('alice', K)], nq=3, dup=(i,))
+        if i % 3 == 0:
+            case('alice', K, [('alice', K)], nq=3, dup=(i, i + 1, i + 2))
+            case('alice', 'wrongkey', [('alice', K)], nq=2, dup=(i,))
+    case('alice', K, [('alice', K)], nq=3, dup=tuple(range(16)))
+    case('alice', K, [('alice', K)], nq=2, inj=2, dup=(6, 7, 8))
+    # the established session is lost (the server goes away, its close_notify arrives) while a request is in flight and others wait: one NACK each
+    for nq in (1, 2, 4):
+        for sc in (1, 500, 5000):
+            case('alice', K, [('alice', K)], nq=nq, mute=1, sclose=sc)
+            case('alice', K, [('alice', K)], nq=nq, mute=0, sclose=sc)
     # loss during and after the handshake (GnuTLS retransmits on the real clock; only safety is asserted for these runs)
     nd = 40 if tier == 'thorough' else 14
     for i in range(nd):
